@@ -1,6 +1,10 @@
 package pruner
 
-import "sort"
+import (
+	"runtime/debug"
+	"sort"
+	"sync"
+)
 
 // pRetryOrder / pFailedKeys own the iteration order of
 // `for failed := range s.checkpoint.FailedHeaders` in Service.retryFailed. Go's map order is
@@ -22,4 +26,25 @@ func pFailedKeys(m map[uint64]struct{}) []uint64 {
 		return ks[i] < ks[j]
 	})
 	return ks
+}
+
+// pGuardGo runs f (Service.run, started by Service.Start with `go s.run()`) and turns a panic
+// of that goroutine - which the harness cannot recover because the code under test creates the
+// goroutine itself - into an entry of pPanics keyed by the Service. Deferred functions of the
+// panicking frames (mutex unlock, close(doneCh)) have already run when the entry is stored.
+// Injected by the overlay rewrite of `go s.run()`.
+var pPanics sync.Map // *Service -> pPanic
+
+type pPanic struct {
+	Value any
+	Stack []byte
+}
+
+func pGuardGo(s *Service, f func()) {
+	defer func() {
+		if r := recover(); r != nil {
+			pPanics.Store(s, pPanic{r, debug.Stack()})
+		}
+	}()
+	f()
 }
